@@ -435,6 +435,59 @@ def r11_multi(ctx):
     outs = ai.explore(thunk_io2)
     ctx.require(bool(outs) and all(o_.kind == 'raise' and o_.exc == 'ValueError' for o_ in outs), 'R11.3', 'IOPort.send(closed)',
                 ctx.where(ioclose), f'{outs}', construct=f'{io.qname}::send-closed')
+    # the wrapper over an input whose device closes the INPUT port inside _receive (after k messages): iterating the wrapper ends
+    # quietly with exactly those messages, like iterating the input itself
+    for k in (0, 2):
+        ai5 = pm.make_interp(ctx)
+        st5 = {}
+
+        def on_receive5(interp, port, block):
+            st5['n'] = st5.get('n', 0) + 1
+            if st5['n'] <= k:
+                return st5['msgs'][st5['n'] - 1]
+            pm.call(interp, ctx, port, 'close')
+            return None
+        pm.device_double(ai5, ctx, on_receive=on_receive5)
+
+        def thunk_io3():
+            st5.clear()
+            st5['msgs'] = [pm.note(ctx, 20 + i) for i in range(k)]
+            i_ = pm.new_port(ai5, ctx, 'BaseInput', [], {})
+            o_ = pm.new_port(ai5, ctx, 'BaseOutput', [], {})
+            port = pm.new_port(ai5, ctx, 'IOPort', [i_, o_], {})
+            return pm.call(ai5, ctx, port, '__iter__')
+        outs = ai5.explore(thunk_io3)
+        o5, ioiter = ctx.p.lookup_method(io, '__iter__')
+        wio = ctx.where(ioiter) if ioiter is not None else ctx.where(ioclose)
+        oc = one(ctx, 'R11.5', f'iterate(IOPort, input closes itself after {k})', wio, outs, f'{io.qname}::__iter__::input-closes')
+        if oc is not None:
+            ok = oc.kind == 'return' and isinstance(oc.value, AList) and len(oc.value.items) == k and all(a is b for a, b in zip(oc.value.items, st5['msgs']))
+            ctx.require(ok, 'R11.5', f'iterate(IOPort, input closes itself after {k})', wio,
+                        f'the wrapped input port closes inside receive() after {k} messages; iterating the wrapper gives {oc}',
+                        construct=f'{io.qname}::__iter__::input-closes')
+        for q in ai5.inlined:
+            ctx.functions.add(q)
+    # a child port that closed while it still held messages: the MultiPort hands them out (non-blocking and blocking)
+    for block in (False, True):
+        holder = {}
+
+        def thunk_mc():
+            e1 = pm.new_port(ai, ctx, 'EchoPort', [], {})
+            m_ = pm.note(ctx, 31)
+            holder['m'] = m_
+            pm.call(ai, ctx, e1, 'send', [m_])
+            pm.call(ai, ctx, e1, 'close')
+            multi = pm.new_port(ai, ctx, 'MultiPort', [[e1]], {})
+            ai.sleeps = 0
+            return pm.call(ai, ctx, multi, 'receive', [], {'block': block})
+        outs = ai.explore(thunk_mc)
+        lab = 'blocking' if block else 'non-blocking'
+        oc = one(ctx, 'R11.4', f'MultiPort.receive({lab}, closed child holds a message)', w, outs, f'{mrecv.qname}::closed-child')
+        if oc is not None:
+            ok = oc.kind == 'return' and isinstance(oc.value, AObj) and oc.value.attrs == holder['m'].attrs
+            ctx.require(ok, 'R11.4', f'MultiPort.receive({lab}, closed child holds a message)', w,
+                        f'a child port closed with one message taken in; the MultiPort gives {oc} (every message taken in must be handed out)',
+                        construct=f'{mrecv.qname}::closed-child')
     # EchoPort: what is sent can be received, iteration ends
     holder = {}
 
